@@ -164,6 +164,17 @@ def run(cx):
                 okw = e is not None and match('(call *Weights::get _ $i)', e['w'], {'i': e['i']}) is not None
                 cx.ob('EXPR', f'least_squares:term:{"head" if k and k[0] == "itervar" else "tail"}', okk and okw,
                       'slot k accumulates w_i * x_i^k with k the slot index and w_i the weight of sample i', where=site, found=val)
+        # every sample contributes: within one cycle of the loop over the samples no path skips an accumulation loop
+        loops = b.loops()
+        sample_loops = [lp for lp in loops if any(c.bb == lp[0] and match('(call Range::next (phi (agg *Range (start 0) (end (len (param xs)))) (loop)))', cx.call(c)) is not None for c in b.calls('Range::next'))]
+        oke = len(sample_loops) == 1
+        if oke and acc is not None:
+            h, blocks, backs = sample_loops[0]
+            acc_blocks = [m.bb for m in b.mutations() if m.kind == 'store' and (m.root == acc or b.local_name(m.root) == 'rhs') and m.bb in blocks]
+            inner = [lp for lp in loops if lp[0] != h and lp[0] in blocks and any(x in lp[1] for x in acc_blocks)]
+            oke = len(inner) >= 2 and all(all(b.dominates(lp[0], s) for s in backs) for lp in inner)
+        cx.ob('ORDER', 'least_squares:every-sample', oke,
+              'every sample (x_i, y_i, w_i) reaches both accumulation loops: no sample is skipped on any path of the sample loop (a dropped sample changes the objective being minimised)', where=b.file)
         rhs = [m for m in b.mutations() if b.local_name(m.root) == 'rhs' and m.kind == 'store']
         okr = False
         for m in rhs:
